@@ -28,7 +28,7 @@ PROPERTY = "C13"
 LEVEL = "exploration"
 RULE = (
     "layout case = (shipped .co file | generated valid program, Colang version, transform in {blank, blank_ws, trail, "
-    "comment(2.x), indent2, indent3, combo}, per-line coin seed); non-trivial = the transform changed >=1 line and the "
+    "comment(2.x), comment_ellipsis(2.x), indent2, indent3, combo}, per-line coin seed); non-trivial = the transform changed >=1 line and the "
     "base parse has >=1 flow or message. robustness case = (version, kind in {mut, soup}, seed file window, seed); "
     "non-trivial = text differs from its seed window and the version heuristic let the real parser run on it; "
     "distinct = sha1(version, transformed/mutated text)"
@@ -43,8 +43,10 @@ ASSUMPTIONS = [
     "inside a 1.0 `\\`/` or` continuation; no comment/trailing space is added to a line holding a triple quote",
     "generated programs are accepted (100% of 12000 calibration seeds) by the unchanged tree; a rejected one is a violation",
     "robustness oracle: isinstance(exc, ColangParsingError) and file path in str(exc), or a RailsConfig returned",
-    "hang = logical steps > 500*(len(text)+50) + 500*(chars of all importable library .co files); calibration: max 9.7 "
-    "steps/char over all 185 shipped files, i.e. >= 50x head-room; wall-clock watchdog only yields inconclusive",
+    "hang = logical steps of parsing the case file > K*(len(text)+50), K=500 for 2.x (lark lexer/LALR driver counted; max 9.7 "
+    "steps/char over all shipped files) and K=60 for 1.0 (max 1.04), i.e. >= 50x head-room; the rest of from_path (directory "
+    "walk, imported library files) runs under 500*(chars of all importable library .co files); the wall-clock watchdog only "
+    "yields inconclusive",
     "valid Unicode only (no lone surrogates); files are written as UTF-8",
     "import statements whose quoted path exists on this machine are skipped (expected: they would load foreign directories)",
 ]
@@ -52,7 +54,11 @@ SAMPLE_EVERY = 499
 CASE_WALL_S = 30
 HARD_INCONCLUSIVE = ("hook-missing", "monitor-not-reached", "no-shipped-files")
 
-STEP_K = 500
+STEP_K = {"2.x": 500, "1.0": 60}  # >= 50x the maximum steps/char seen on the shipped files (9.7 with lark, 1.04)
+
+
+def _budget(n_chars, ver):
+    return STEP_K.get(ver, 500) * (n_chars + 50)
 CO_ROOTS = ("nemoguardrails", "examples", "tests")
 FILE_NAME = "c13_case_file.co"
 
@@ -163,10 +169,19 @@ def setup_worker():
     _W["parse_calls"] = []
 
     def counting_parse(filename, content, *a, **k):
-        if filename == FILE_NAME:
-            _W["parse_calls"].append(False)
-        r = real_parse(filename, content, *a, **k)
-        if filename == FILE_NAME and r:
+        if filename != FILE_NAME:
+            return real_parse(filename, content, *a, **k)
+        # the case file gets its own budget, proportional to its length; whatever the loader
+        # does before/after (directory walk, imported library files) runs under LOADER_BUDGET
+        _W["parse_calls"].append(False)
+        steps.stop()
+        steps.start(_budget(len(content), k.get("version", "1.0")))
+        try:
+            r = real_parse(filename, content, *a, **k)
+        finally:
+            _W["file_steps"] = steps.stop()
+            steps.start(_W["lib_budget"])
+        if r:
             _W["parse_calls"][-1] = True  # {} = skipped by the version heuristic
         return r
 
@@ -189,7 +204,7 @@ def setup_worker():
         Source=Source,
         CPE=ColangParsingError,
         cfgmod=cfgmod,
-        lib_budget=STEP_K * lib_chars,
+        lib_budget=_budget(lib_chars + 2000, "2.x"),
         dir=tempfile.mkdtemp(prefix="c13cfg_"),
         base={},
         terminals=g.grammar_terminals(open(grammar, encoding="utf-8").read()),
@@ -273,7 +288,7 @@ def _decide_version(path, text):
 def _parse(text, ver, name="layout.co"):
     from . import steps
 
-    steps.start(STEP_K * (len(text) + 50))
+    steps.start(_budget(len(text), ver))
     try:
         return _W["parse"](name, text, version=ver)
     finally:
@@ -374,7 +389,7 @@ def run_layout(case):
         t, err = None, "StepBudgetExceeded: %s" % e
     except Exception as e:
         t, err = None, "%s: %s" % (type(e).__name__, str(e)[:300])
-    obs["max_layout_step_ratio"] = round(_W.get("last_steps", 0) / float(STEP_K * (len(new) + 50)), 5)
+    obs["max_layout_step_ratio"] = round(_W.get("last_steps", 0) / float(_budget(len(new), ver)), 5)
     mech = None
     detail = None
     if err is not None:
@@ -457,6 +472,39 @@ def _raiser(e):
     return os.path.basename(pick.filename), pick.name
 
 
+def _loop_frame(text, ver):
+    """Where a non-terminating parse loops: the parse is repeated under three
+    different budgets; the deepest repository frame (file:function) common to the
+    three stacks at the moment the budget fires is the frame that never returns."""
+    import traceback
+
+    from . import steps
+
+    b = _budget(len(text), ver)
+    chains = []
+    for budget in (b, b + 37, b + 131):
+        steps.start(budget)
+        try:
+            _W["parse"](FILE_NAME, text, version=ver)
+            return "outside-file-parse"
+        except steps.StepBudgetExceeded as e:
+            chains.append(
+                [
+                    "%s:%s" % (os.path.basename(f.filename), f.name)
+                    for f in traceback.extract_tb(e.__traceback__)
+                    if "/nemoguardrails/" in f.filename.replace("\\", "/") or "/lark/" in f.filename.replace("\\", "/")
+                ]
+            )
+        except Exception:
+            return "outside-file-parse"
+        finally:
+            steps.stop()
+    k = 0
+    while all(len(c) > k for c in chains) and len({c[k] for c in chains}) == 1:
+        k += 1
+    return chains[0][k - 1] if k else "unknown"
+
+
 def run_robust(case):
     from . import steps
 
@@ -474,11 +522,12 @@ def run_robust(case):
     fpath = os.path.join(d, FILE_NAME)
     with open(fpath, "wb") as f:
         f.write(data)
-    budget = STEP_K * (len(text) + 50) + _W["lib_budget"]
+    budget = _budget(len(text), ver)
     del _W["parse_calls"][:]
+    _W["file_steps"] = 0
     outcome = None
     info = {}
-    steps.start(budget)
+    steps.start(_W["lib_budget"])
     try:
         from nemoguardrails import RailsConfig
 
@@ -499,7 +548,10 @@ def run_robust(case):
         outcome = "other"
         info = {"exc_type": type(e).__name__, "raiser_file": fn, "raiser": func, "message": str(e)[:300]}
     finally:
-        used = steps.stop()
+        steps.stop()
+    used = _W["file_steps"]
+    if outcome == "step-budget":
+        info["loop_frame"] = _loop_frame(text, ver)
     reached = len(_W["parse_calls"])
     parsed_really = any(_W["parse_calls"])
     obs = {
@@ -524,6 +576,7 @@ def run_robust(case):
         "fam": "robust",
         "outcome": outcome,
         "exc_type": info.get("exc_type"),
+        "loop_frame": info.get("loop_frame"),
         "raiser": info.get("raiser"),
         "raiser_file": info.get("raiser_file"),
         "sample": {"family": "robust", "version": ver, "kind": case["kind"], "text_head": text[:300], "outcome": outcome, "info": info},
@@ -567,9 +620,11 @@ def classify(r):
                 return "unresolved-import-valueerror"
             return "escaped:%s@%s:%s" % (r.get("exc_type"), r.get("raiser_file"), r.get("raiser"))
         if o == "step-budget":
-            return "step-budget-exceeded:%s" % r.get("ver")
+            return "nonterminating@%s" % r.get("loop_frame")
         return "%s:%s" % (o, r.get("ver"))
     tf = r.get("tf", "?")
+    if tf == "comment_ellipsis":
+        return "comment-after-ellipsis-shortcut"
     fam = "indent" if tf.startswith("indent") else "blank" if tf.startswith("blank") else tf
     return "%s:%s:%s" % (r.get("mech", "layout"), r.get("ver"), fam)
 
@@ -582,7 +637,7 @@ def finalize(tier, seed, observed, counts):
         need += ["robust_%s_mut" % ver, "robust_%s_soup" % ver, "layout_%s_blank" % ver, "layout_%s_trail" % ver, "layout_%s_indent2" % ver]
     need.append("layout_2.x_comment")
     missing = [k for k in need if not observed.get(k)]
-    cov = {"step_budget_per_char": STEP_K, "obligations_checked": len(need)}
+    cov = {"step_budget_per_char": dict(STEP_K), "obligations_checked": len(need)}
     if missing:
         return {"coverage": cov, "inconclusive": "never exercised: %s" % ",".join(missing)}
     return {"coverage": cov}
